@@ -139,6 +139,8 @@ type caseT struct {
 	// reloads in the middle of the traffic that change nothing; operations At..At+N-1 run inside the generator
 	Reloads  []reloadT `json:"reloads,omitempty"`
 	Listener string    `json:"listener,omitempty"` // "" passive | panics | reenters (single-rule cases)
+	// > 0: the prologue's reload to the case's rules happens after this many requests, which are then in flight
+	ReloadAfter int `json:"reloadAfterRequests,omitempty"`
 }
 
 type reloadT struct {
@@ -717,11 +719,27 @@ func (h *harness) genRun(id int) (c caseT, obs []obsT, log []evT, marks []int) {
 			panic(fmt.Sprintf("case %d: LoadRulesOfResource (sibling): %v", id, err))
 		}
 	}
-	if _, err := circuitbreaker.LoadRulesOfResource(res, rules); err != nil {
-		panic(fmt.Sprintf("case %d: LoadRulesOfResource: %v", id, err))
+	// Half of the cases that start from a reload make it WHILE REQUESTS ARE IN FLIGHT: the first 1-4
+	// operations are requests issued under the sibling list (every breaker is Closed and nothing has
+	// completed yet, so they are admitted whatever the sibling rules say and the breakers have no
+	// history: the model is unchanged), then the case's rules replace the sibling list - new breaker
+	// objects, with or without statistic reuse depending on the kind of the prologue - and the
+	// requests complete afterwards.  A completion counts for the breakers in force when it happens.
+	switched := true
+	loadFinal := func() {
+		if _, err := circuitbreaker.LoadRulesOfResource(res, rules); err != nil {
+			panic(fmt.Sprintf("case %d: LoadRulesOfResource: %v", id, err))
+		}
+		if got := circuitbreaker.GetRulesOfResource(res); len(got) != len(rules) {
+			panic(fmt.Sprintf("case %d: %d of %d rules accepted", id, len(got), len(rules)))
+		}
+		switched = true
 	}
-	if got := circuitbreaker.GetRulesOfResource(res); len(got) != len(rules) {
-		panic(fmt.Sprintf("case %d: %d of %d rules accepted", id, len(got), len(rules)))
+	if prologue >= 0 && (id/3)%2 == 1 {
+		switched = false
+		c.ReloadAfter = 1 + int(id/6)%4
+	} else {
+		loadFinal()
 	}
 
 	ref := newRef(c.Rules) // tracks the phases for the phase-directed stream only
@@ -841,6 +859,9 @@ func (h *harness) genRun(id int) (c caseT, obs []obsT, log []evT, marks []int) {
 		} else {
 			doC = len(live) > 0 && r.Chance(45, 100)
 		}
+		if !switched {
+			doC = false // nothing completes before the case's rules are in force
+		}
 		if doC {
 			var k int
 			switch x := r.Intn(10); {
@@ -881,7 +902,10 @@ func (h *harness) genRun(id int) (c caseT, obs []obsT, log []evT, marks []int) {
 		// a user strategy whose generator declines (rule ignored) or panics (load fails).  The next 1-3
 		// operations are issued from INSIDE the generator, i.e. while the reload is under way; they and
 		// everything after must see every kept breaker exactly as without the reload.
-		if nReloads < 2 && len(c.Ops) > 0 && r.Chance(4, 100) {
+		if !switched && len(c.Ops) >= c.ReloadAfter {
+			loadFinal()
+		}
+		if switched && nReloads < 2 && len(c.Ops) > 0 && r.Chance(4, 100) {
 			nReloads++
 			inner := 1 + r.Intn(3)
 			pan := r.Chance(1, 3)
@@ -905,6 +929,9 @@ func (h *harness) genRun(id int) (c caseT, obs []obsT, log []evT, marks []int) {
 			continue
 		}
 		stepOnce()
+	}
+	if !switched {
+		loadFinal()
 	}
 	onOpenHook = nil
 	// the listener log of the case is cut here, before clean-up
@@ -1243,6 +1270,9 @@ func main() {
 		}
 		if c.Listener != "" {
 			rep.Count("listener_"+c.Listener, 1)
+		}
+		if c.ReloadAfter > 0 {
+			rep.Count("reload_with_requests_in_flight", 1)
 		}
 		for _, rl := range c.Reloads {
 			rep.Count("reload_inside_traffic", 1)
